@@ -154,7 +154,9 @@ impl<'a> ExpressionEvaluator<'a> {
                 }])
             }
             BoundExpression::Exists { query, negated } => {
-                todo!("Subquery evaluation is not yet implemented")
+                Err(EvaluationError::InvalidExpression(
+                    "sub-queries are not supported in expressions".to_string(),
+                ))
             }
             BoundExpression::InList {
                 expr,
@@ -189,14 +191,18 @@ impl<'a> ExpressionEvaluator<'a> {
                 Ok(vec![DataType::Bool(Bool(*negated))])
             }
             BoundExpression::Subquery { query, result_type } => {
-                todo!("Subquery evaluation is not yet implemented")
+                Err(EvaluationError::InvalidExpression(
+                    "sub-queries are not supported in expressions".to_string(),
+                ))
             }
             BoundExpression::InSubquery {
                 expr,
                 query,
                 negated,
             } => {
-                todo!("Subquery evaluation is not yet implemented")
+                Err(EvaluationError::InvalidExpression(
+                    "sub-queries are not supported in expressions".to_string(),
+                ))
             }
             BoundExpression::Function {
                 func,
